@@ -17,7 +17,7 @@ func init() {
 	register(&Property{
 		ID:        "C42",
 		Patterns:  []string{".", "./sql/rowexec", "./sql/analyzer"},
-		Technique: "CFG dominance with error-edge pruning (go/cfg); sibling agreement over IsReadOnly implementations; who-may-write reachability over the type-resolved static call graph of the executor; child coverage: backward access-path origin analysis (go/ssa, interprocedural, field stores) of the executor's dispatch arguments against a forward must-analysis of IsReadOnly (conjunction, early returns, for-every-element loops)",
+		Technique: "CFG dominance with error-edge pruning (go/cfg); sibling agreement over IsReadOnly implementations; who-may-write reachability over the type-resolved static call graph of the executor; child coverage: backward access-path origin analysis (go/ssa, interprocedural, field stores) of the executor's dispatch arguments against a forward must-analysis of IsReadOnly (conjunction, early returns, for-every-element loops); rule-batch order against per-rule root retyping (go/ssa result-type flow with dominating type assertions) and the validations' root-type classes",
 		Explanation: "Read-only modes block every write — structural clauses. (R1) in package sqle every call that executes a plan (ExecBuilder.Build) is dominated by Engine.readOnlyCheck of the same node, and on " +
 			"the edge where that check returned an error the execution is unreachable. (R2) wrapper propagation: a plan node whose executor executes another node (its build function, the functions it calls " +
 			"and the methods of the iterator types it constructs reach the executor's dispatch) does not answer IsReadOnly with the constant true: it delegates to the executed nodes or answers false. " +
@@ -27,8 +27,13 @@ func init() {
 			"a duplicated or dropped operand, `||`, a sub-slice or an any-instead-of-all loop leave the child uncovered. " +
 			"(R3) writers: a plan node whose executor code reaches a mutator of the storage interfaces (row inserters/updaters/deleters, table/index/foreign-key/check alteration, table, view, trigger, " +
 			"procedure, event and database creation or removal, statistics and account edits) does not answer IsReadOnly with the constant true. (R4) the analyzer's read-only validation rules " +
-			"(validateReadOnlyDatabase, validateReadOnlyTransaction) are registered in the validation batch and reject with the read-only errors.",
-		NotCovered: "the converse (nodes that answer false but are harmless: 'and nothing else'), writes performed by integrator-supplied nodes and table functions, session/system variable writes, " +
+			"(validateReadOnlyDatabase, validateReadOnlyTransaction) are registered in the validation batch and reject with the read-only errors. " +
+			"(R5) rule ordering: both validations judge a statement by the dynamic type of its root (their type switch on the root, the default arm refined by plan.IsDDLNode); an arm is rejectable if it can turn the verdict variable to invalid. " +
+			"In every batch sequence the analyzer can run (Builder.Build's batch list over the rule tables, every hand-written batch list of getBatchesForNode) no rule placed before a validation can replace the root by a node of a non-rejectable class " +
+			"where the type it replaces is rejectable (root results read from go/ssa: concrete node types flowing to the rule's first result through helpers, With* methods and closures handed to sql/transform; input type = dominating type assertion, " +
+			"concrete helper parameter or receiver) — unless the rule itself first hands a node of the replaced class to Analyzer.Analyze (the full sequence, validations included) on every path to the replacement. processTruncate (DeleteFrom -> Truncate) must follow validateReadOnlyTransaction.",
+		NotCovered: "R5: root results whose input type cannot be read (no dominating type assertion) and results reached only through dynamic calls are not decided (listed as notes); rules an integrator adds through the Builder hooks (pre-analyzer rules, AlwaysBeforeDefault); replacements below the root; " +
+			"the converse (nodes that answer false but are harmless: 'and nothing else'), writes performed by integrator-supplied nodes and table functions, session/system variable writes, " +
 			"calls through interface values other than the frozen mutator interfaces; R2c: the executor side is path-insensitive (a child executed only in a state in which IsReadOnly answers false is still demanded), " +
 			"nodes the executor reaches through non-plan fields (run-time references: handler statements, cursors) are listed as notes and not decided, children executed only through a dynamic call other than the dispatch methods, " +
 			"element facts nested in two loops and maps of nodes, expressions (subqueries) evaluated rather than executed",
@@ -36,7 +41,7 @@ func init() {
 			runC42(c, c42Cfg{root: "", exec: "sql/rowexec", planRel: "sql/plan", sqlRel: "sql", analyzer: "sql/analyzer",
 				check: "Engine.readOnlyCheck", dispatch: "BaseBuilder.buildNodeExecNoAnalyze", dispatchers: []string{"buildNodeExec", "buildNodeExecNoAnalyze", "Build"},
 				validators: []string{"validateReadOnlyDatabase", "validateReadOnlyTransaction"}, floors: [4]int{3, 160, 160, 8},
-				transformRel: "sql/transform", floorCov: 45})
+				transformRel: "sql/transform", floorCov: 45, floorOrder: 30})
 		},
 		Fixture: func(c *Ctx, fx *Prog) {
 			expectFixture(c, fx, "c42: execution without / ignoring / mismatching the read-only check, constant-true wrapper and writer, validation rule not registered, executed child not conjoined (duplicate operand, any-instead-of-all loop, child run from an iterator field)",
@@ -54,7 +59,7 @@ func init() {
 				func(fc *Ctx) {
 					runC42(fc, c42Cfg{root: "testdata/c42/eng", exec: "testdata/c42/exec", planRel: "testdata/c42/plan", sqlRel: "testdata/c42/sql", analyzer: "testdata/c42/an",
 						check: "Engine.readOnlyCheck", dispatch: "BaseBuilder.buildNodeExec", dispatchers: []string{"buildNodeExec", "Build"},
-						validators: []string{"validateReadOnlyDatabase", "validateReadOnlyTransaction"}})
+						validators: []string{"validateReadOnlyDatabase", "validateReadOnlyTransaction"}, floorOrder: -1})
 				})
 		},
 		FixturePkgs: []string{"./testdata/c42/eng", "./testdata/c42/exec", "./testdata/c42/plan", "./testdata/c42/sql", "./testdata/c42/an"},
@@ -68,6 +73,7 @@ type c42Cfg struct {
 	floors                                [4]int
 	transformRel                          string // package of the tree rewriters (result = rewritten copy of the node argument)
 	floorCov                              int
+	floorOrder                            int // C42-R5 instance floor; -1: rule not run (fixture without rule batches)
 }
 
 // c42Mutators: the storage-interface methods that modify data or schema. Interface (in package
@@ -129,6 +135,9 @@ func runC42(c *Ctx, cf c42Cfg) {
 	}
 	c42R1(c, cf, rootPk)
 	c42R4(c, cf)
+	if cf.floorOrder >= 0 {
+		c42R5(c, cf, cf.floorOrder)
+	}
 
 	// ---- dispatch table of the executor: node type -> build function
 	_, dd := c.P.FuncDecl(cf.exec, cf.dispatch)
